@@ -66,6 +66,10 @@ def run(ctx):
         "stix2.utils::is_object", "stix2.utils::is_stix_type", "stix2.utils::is_sdo", "stix2.utils::is_sco",
         "stix2.utils::is_sro", "stix2.utils::is_marking", "stix2.registry::class_for_type"})
     run.floor("C04.custom-by-version", 6)
+    # a mechanism of one specification version (toplevel-property extensions, 2.1) must not switch off extra-property
+    # detection for objects of the other version
+    from .C14 import rule_version_constants
+    ctx.do(rule_version_constants, rule_id="C04.version-constants")
     from .hidden_state import rule_no_hidden_state
     ctx.do(rule_no_hidden_state, "C04.history-independence")
 
